@@ -221,14 +221,24 @@ def rule_default_mask(rep):
     process_into_buffer stores either the caller's mask (Some) or that default (None) into self.channel_mask before anything consults it."""
     facts = rep.ctx.facts
     R = "R-C11-default-mask"
-    um = facts.need_free_fn("lib", "update_mask_from_buffers")
-    live = [s for s in um["body"]["stmts"] if s.get("k") in ("semi", "expr")]
-    fp = ir.fill_pattern(live[0]["e"]) if len(live) == 1 else None
-    if fp is None and len(live) == 1 and live[0]["e"].get("k") == "for":
-        fp = ir.fill_pattern(live[0]["e"])
-    pname = um["params"][0]["name"] if um["params"] else None
-    ok = fp is not None and is_path(fp[0], pname) and fp[1] == 1 and nbit(fp[2]) in ("b:true", "true")
-    rep.ob(R, "update_mask_from_buffers", ok, "the default mask must set every element to true (got %s)" % (show(live[0]["e"])[:80] if live else None), loc(um))
+    um = facts.free_fn("lib", "update_mask_from_buffers")
+    if um is not None:
+        live = [s for s in um["body"]["stmts"] if s.get("k") in ("semi", "expr")]
+        fp = ir.fill_pattern(live[0]["e"]) if len(live) == 1 else None
+        if fp is None and len(live) == 1 and live[0]["e"].get("k") == "for":
+            fp = ir.fill_pattern(live[0]["e"])
+        pname = um["params"][0]["name"] if um["params"] else None
+        ok = fp is not None and is_path(fp[0], pname) and fp[1] == 1 and nbit(fp[2]) in ("b:true", "true")
+        rep.ob(R, "update_mask_from_buffers", ok, "the default mask must set every element to true (got %s)" % (show(live[0]["e"])[:80] if live else None), loc(um))
+
+    def direct_fill(blk):
+        """the None branch fills self.channel_mask with `true` in place (the default-mask helper written out)"""
+        for st in blk["stmts"]:
+            e_ = st.get("e") if st.get("k") in ("semi", "expr") else None
+            fp_ = ir.fill_pattern(e_) if isinstance(e_, dict) else None
+            if fp_ is not None and ir.is_self_field(fp_[0], "channel_mask") and fp_[1] == 1 and nbit(fp_[2]) in ("b:true", "true"):
+                return True
+        return False
     for t in RESAMPLERS:
         fn = facts.need_method(t, "process_into_buffer", "Resampler")
         maskp = fn["params"][2]["name"]
@@ -239,8 +249,9 @@ def rule_default_mask(rep):
                 bound = ir.pat_names(e["c"]["pat"])
                 some_ok = any(x.get("k") == "mcall" and x["name"] == "copy_from_slice" and ir.is_self_field(x["recv"], "channel_mask") and len(x["args"]) == 1
                               and bound and is_path(x["args"][0], bound[0]) for x in walk(e["then"]))
-                none_ok = any(x.get("k") == "call" and is_path(x["f"]) and x["f"]["p"].split("::")[-1] == "update_mask_from_buffers" and len(x["args"]) == 1
-                              and x["args"][0].get("k") == "ref" and ir.is_self_field(x["args"][0]["e"], "channel_mask") for x in walk(e["else"]))
+                none_ok = (um is not None and any(x.get("k") == "call" and is_path(x["f"]) and x["f"]["p"].split("::")[-1] == "update_mask_from_buffers" and len(x["args"]) == 1
+                                                  and x["args"][0].get("k") == "ref" and ir.is_self_field(x["args"][0]["e"], "channel_mask") for x in walk(e["else"]))) \
+                    or direct_fill(e["else"])
                 found = some_ok and none_ok
         rep.ob(R, "%s::process_into_buffer" % t, found,
                "the mask prologue must store the caller's mask (Some) or the all-true default (None) into self.channel_mask", loc(fn))
@@ -255,7 +266,7 @@ def run(rep):
     rep.guarded("R-C11-scratch", lambda r: fftunit.rule_scratch(r, "R-C11-scratch"))
     rep.guarded("R-C11-scratch", rule_points)
     rep.guarded("R-C11-default-mask", rule_default_mask)
-    rep.floor("R-C11-default-mask", 8)
+    rep.floor("R-C11-default-mask", 7)
     rep.clause("R-C11-default-mask", "mask None means all channels active: the default-mask helper sets every element true and every process_into_buffer stores the caller's mask or that default")
     # the allocating / padding wrappers must treat channels independently too (per-channel lengths, per-channel mask bit): shared with C16
     import C16
